@@ -83,7 +83,16 @@ ArithBad(a, b, ops, i) ==
                 ELSE <<>>)
             \o ArithBad(a, b, ops, i + 1)
 
+\* Number + / - of unit a with every database unit: accepted exactly for a itself, and the result carries a
+CheckAddSub(e) ==
+    Need(\A k \in 1..Len(e.accepted) : e.accepted[k][1] = e.a /\ e.accepted[k][3] = "ok" /\ e.accepted[k][4] = e.a, "C16",
+         <<"Numbers of different units were added / subtracted (or the sum lost its unit)", e.a,
+           IF \E k \in 1..Len(e.accepted) : e.accepted[k][1] # e.a THEN e.accepted[CHOOSE k \in 1..Len(e.accepted) : e.accepted[k][1] # e.a] ELSE <<>>>>)
+    \o Need(\A nm \in {"add", "sub"} : \E k \in 1..Len(e.accepted) : e.accepted[k][1] = e.a /\ e.accepted[k][2] = nm, "C16",
+            <<"Numbers of the same unit could not be added / subtracted", e.a>>)
+
 Check(e) == CASE e.op = "units.lookup" -> CheckLookup(e)
+              [] e.op = "units.addsub" -> CheckAddSub(e)
               [] e.op = "units.codec" -> CheckCodec(e)
               [] e.op = "units.conv" -> CheckConv(e)
               [] e.op = "units.muldiv" -> CheckMulDiv(e)
